@@ -318,3 +318,6 @@ def run(ck: Check, repo: Repo) -> None:
     # 'download only adds new files': the exists() refusal dominates every write (same obligation as C19-R1)
     from . import c19
     c19.rule_put(ck, repo, "R5")
+    # 'never touching ignored or excluded files': the VCS membership tests must compare like with like
+    from . import c03
+    c03.rule_path_bases(ck, repo, "R6")
